@@ -229,3 +229,51 @@ def dleaf(spec: dict) -> int:
 def dleaf_split(args: dict) -> list:
     """parallel_func of the direct parallel task: one call per kid."""
     return [(k,) for k in args["spec"].get("kids") or []]
+
+
+# ----------------------------------------------------------------------------- workflow scripts (C18)
+WF_LOG: list[dict] = []  # one entry per execution: {"inv", "workflow", "attempt", "values", "complete"}
+
+
+def wf_script(script: dict) -> int:
+    """Issues a generated sequence of deterministic workflow operations.
+
+    script = {"n": name, "ops": ["random" | "time" | "uuid" | ["task", x, y], ...],
+              "fail_at": {"<attempt>": index}}   -> RetryError before op `index` on that attempt
+    Every execution appends the values it saw to WF_LOG."""
+    t = _self_task("wf_script")
+    inv = t.invocation
+    attempt = _attempt("wf_script", str(script.get("n", "?")))
+    entry = {"inv": str(inv.invocation_id), "workflow": str(inv.workflow.workflow_id), "name": script.get("n"), "attempt": attempt, "values": [], "complete": False}
+    WF_LOG.append(entry)
+    fail_at = (script.get("fail_at") or {}).get(str(attempt))
+    for idx, op in enumerate(script["ops"]):
+        if fail_at is not None and idx == fail_at:
+            raise RetryError()
+        if op == "random":
+            entry["values"].append(["random", t.wf.random()])
+        elif op == "time":
+            entry["values"].append(["time", t.wf.utc_now().isoformat()])
+        elif op == "uuid":
+            entry["values"].append(["uuid", t.wf.uuid()])
+        else:
+            sub = t.wf.execute_task(_self_task("add"), op[1], op[2])
+            entry["values"].append(["task", str(sub.invocation_id)])
+        _work(0.001)
+    entry["complete"] = True
+    return len(entry["values"])
+
+
+# ----------------------------------------------------------------------------- trigger argument callbacks (C13)
+def args_from_event(ctx: Any) -> dict:
+    """Argument provider callback: forwards the occurrence's unique token."""
+    return {"x": ctx.payload.get("tok", -1), "y": 0}
+
+
+def args_from_status(ctx: Any) -> dict:
+    return {"x": str(ctx.invocation_id), "y": 0}
+
+
+def source(tok: int) -> int:
+    """A task whose completions are occurrences for status/result conditions."""
+    return tok
